@@ -57,7 +57,7 @@ CHECKS = {
    text="Proof (span-recording layer only): Verus contracts on the real BytecodeBuilder::emit and every other builder method - the position attached to an instruction is "
         "the span current at emission (lookup(source_map, index).start == current_span.start), emitting never disturbs earlier instructions' spans, no other method touches "
         "the map, finish moves it unchanged, get_source_location == lookup for every sorted map; Kani contracts on Lexer::advance for every Unicode scalar value "
-        "(line/column/byte stepping, LF/LS/PS) and make_span; bounded Kani harnesses for checkpoint/restore; a bounded native enumeration (all sources of length <= 5 over 15 symbols) "
+        "(line/column/byte stepping, LF/LS/PS), make_span, Parser::span_from and Parser::error; bounded Kani harnesses for checkpoint/restore; a bounded native enumeration (all sources of length <= 5 over 15 symbols) "
         "for token spans and the parser's two re-scan entry points, which Kani could not decide; a side battery (266 fault-planted programs x layouts) links the layer to reported traces (testing, not proof).",
    note="Trusted: Verus+Z3, Kani/CBMC, Option::is_none_or std contract. NOT carried: parser token->AST spans, compile_* calling set_span with the node being compiled, "
         "build_stack_trace's frame walk and function names, error formatting (DESIGN §4.2). checkpoint/restore and the token-span enumeration are BOUNDED stand-ins, never counted as proved.",
